@@ -121,6 +121,14 @@ func runC01(p *P, r *R) {
 					allowed = true // defines the pusher role; R01.5 applies
 				case a.Op == "Add" && a.Word == "*bufferList.size":
 					allowed = inFns(f, fr.poppers) || inFns(f, fr.pushers)
+					if !allowed {
+						// a helper split off a popper/pusher (same receiver, called from nowhere else)
+						for _, root := range append(append([]*ssa.Function{}, fr.poppers...), fr.pushers...) {
+							if inFns(f, p.family(root)) {
+								allowed = true
+							}
+						}
+					}
 				}
 				r.ob("R01.1", fn+": atomic "+a.Op+" on "+a.Word, p.ipos(in), allowed, true,
 					"allowed: Load anywhere; CAS(head) = popper; CAS(tail) = pusher; Add(size) only in popper/pusher; Store/Swap never")
@@ -557,13 +565,11 @@ func c01FreshMemory(p *P, r *R, fr freeListRoles) {
 	}
 	mCreator := p.mCall(names...)
 	oExcl, oCreate := int64(-1), int64(-1)
-	for _, imp := range p.TPkg.Imports() {
-		if imp.Path() == "os" {
-			for nm, dst := range map[string]*int64{"O_EXCL": &oExcl, "O_CREATE": &oCreate} {
-				if c, ok := imp.Scope().Lookup(nm).(*types.Const); ok {
-					if v, okv := constant.Int64Val(constant.ToInt(c.Val())); okv {
-						*dst = v
-					}
+	if lp := p.LPkg.Imports["os"]; lp != nil && lp.Types != nil {
+		for nm, dst := range map[string]*int64{"O_EXCL": &oExcl, "O_CREATE": &oCreate} {
+			if c, ok := lp.Types.Scope().Lookup(nm).(*types.Const); ok {
+				if v, okv := constant.Int64Val(constant.ToInt(c.Val())); okv {
+					*dst = v
 				}
 			}
 		}
